@@ -283,7 +283,8 @@ SCALAR_C = [-1, 0, 1, 2]
 
 
 class Analyzer:
-    def __init__(self, repo, site_lags=None, max_steps=400000, inline_depth=8):
+    def __init__(self, repo, site_lags=None, max_steps=400000, inline_depth=8, lengths_only=False):
+        self.lengths_only = lengths_only
         self.repo = repo
         self.site_lags = site_lags if site_lags is not None else {}
         self.steps = 0
@@ -983,7 +984,7 @@ class Analyzer:
             raise Unsupported('store into a view')
         if self.live_views(ref.id):
             raise Unsupported('store into an array that has live views')
-        if only_views:
+        if only_views or self.lengths_only:
             return
         need = lmax(vlevel, self.st.pc, idx_level)
         if need is None and pos_lag is None:
@@ -1018,6 +1019,8 @@ class Analyzer:
         if isinstance(i, (int, IntV, bool)):
             idx, ok = self.norm_index(i, t.len)
             if not ok:
+                if self.lengths_only:
+                    return
                 raise NotProved('store at an index of unknown sign')
             it = idx if isinstance(idx, int) else idx.t
             ilvl = level_of(idx) if isinstance(idx, IntV) else None
@@ -1959,3 +1962,40 @@ def prove_causal(repo, qual, max_restarts=40, kwargs=None):
         return {'proved': True, 'fields': [(f, d) for f, _, d in series], 'kernels': sorted(an.kernels), 'queries': an.queries, 'restarts': r,
                 'site_lags': {f'{k[0]}:{k[1]}': v for k, v in site_lags.items()}}
     raise Unsupported('element types did not settle')
+
+
+def series_lengths(an, v, path='value'):
+    out = []
+    if isinstance(v, NT):
+        for f, x in zip(v.t.fields, v.vals):
+            out += series_lengths(an, x, f)
+        return out
+    if isinstance(v, (tuple, list)):
+        for j, x in enumerate(v):
+            out += series_lengths(an, x, f'{path}[{j}]')
+        return out
+    if isinstance(v, ArrRef):
+        t = an.T(v)
+        ok = t.kind in ('1d', '2d') and an.prove(zt(len_term(t.len)) == N)
+        return [(path, bool(ok), str(len_term(t.len))[:120])]
+    return []
+
+
+def prove_one_entry_per_candle(repo, qual, kwargs=None):
+    """C14, unbounded: every series returned with sequential=True has exactly n entries for n input candles (lengths are exact
+    symbolic terms of the same abstract execution; levels are ignored).  Raises Unsupported / NotProved."""
+    an = Analyzer(repo, {}, lengths_only=True)
+    rf = repo.find(qual)
+    an.st = State({}, {}, [N >= 1], None)
+    c = an.new_arr(ArrT(IntV(N), 0, None, 0, None, '2d', 6))
+    an.frames.append(Frame('<driver>'))
+    kw = {'sequential': True}
+    kw.update(kwargs or {})
+    v = an.call_repo(Fn(rf), [c], kw)
+    res = series_lengths(an, v)
+    if not res:
+        raise Unsupported('no series in the result')
+    bad = [x for x in res if not x[1]]
+    if bad:
+        raise NotProved('; '.join(f'{f}: length {d}' for f, _, d in bad))
+    return {'fields': [(f, d) for f, _, d in res], 'queries': an.queries}
